@@ -268,7 +268,7 @@ def run(ctx):
     w1 = witness.LineWitness(readers._parse_datetime_to_zmap, {"add_minute = True": "ndk-seconds-60"}, "_parse_datetime_to_zmap", tool=4)
     w2 = witness.LineWitness(readers.ingv_horus, {"dt += datetime.timedelta(minutes=1)": "horus-second>=60", "dt += datetime.timedelta(hours=1)": "horus-minute>=60",
                                                   "dt += datetime.timedelta(days=1)": "horus-hour>=24"}, "ingv_horus", tool=5)
-    n = (5000 if thorough else 400)
+    n = (75000 if thorough else 400)
     ci = 0
     with w1, w2:
         for fmt in FORMATS:
